@@ -124,6 +124,19 @@ def run_nodes(ctx, res, extra_cases):
     for i in range(ctx.n(490, 30000)):
         name = ("SRT", "MicroDVD", "WebVTT", "SRT", "MicroDVD", "WebVTT", "SCC")[i % 7]
         cases.append((name, adv_set(rng, name)))
+    # fixed corpus (audit w7 witnesses): SCC beyond 32 rows (writer and model both raise), non-ASCII text, an empty first
+    # language, the empty set; the MicroDVD frame bound of mdvd_dom
+    def one(text, s=2 * 10 ** 6, e=4 * 10 ** 6):
+        return Caption(s, e, [CaptionNode.create_text(text)])
+    many = []
+    for k in range(41):
+        many += [CaptionNode.create_text("r%d" % k), CaptionNode.create_break()]
+    cases += [("SCC", CaptionSet({"en-US": CaptionList([Caption(2 * 10 ** 6, 4 * 10 ** 6, many[:-1])])})),
+              ("SCC", CaptionSet({"en-US": CaptionList([one("\u00e9\u4e2d \u266a </tt>")])})),
+              ("SCC", CaptionSet({"en-US": CaptionList(), "fr": CaptionList([one("x")])})),
+              ("SCC", CaptionSet({"en-US": CaptionList()})),
+              ("MicroDVD", CaptionSet({"en-US": CaptionList([one("x", 2 ** 50 - 40000, 2 ** 50 - 1)])})),
+              ("MicroDVD", CaptionSet({"en-US": CaptionList([one("x", 2 ** 49 + 39999, 2 ** 49 + 40000)])}))]
     reqs, items = [], []
     for name, cs in cases:
         w, why = encode(cs, name)
